@@ -127,6 +127,7 @@ func c13Worker(w *W) {
 	var rotDone atomic.Int64
 	var stallArmed atomic.Bool
 	var burstLoads atomic.Int64
+	var restarts atomic.Int64
 	var seqFrom atomic.Value // time.Time from which only writer 0 keeps writing (one write at a time)
 	log.VerifPointFn = func(name string) {
 		y.fn(name)
@@ -150,7 +151,7 @@ func c13Worker(w *W) {
 			}
 			return
 		}
-		if name == "roll.write.loaded" && mode != "sequential" {
+		if name == "roll.write.loaded" && mode != "sequential" && mode != "seqrestart" {
 			now := time.Now()
 			nb := now.Truncate(interval).Add(interval)
 			// hold only part of the writers, so that the others cross the boundary and rotate meanwhile
@@ -267,6 +268,21 @@ func c13Worker(w *W) {
 					}
 					for time.Now().Before(at) {
 					}
+				case "seqrestart":
+					// one writer; every now and then - between two writes - the very same appender object is stopped and started
+					// again; it must go on rotating like a fresh one
+					if i%9 == 8 {
+						apMu.Lock()
+						ap.Stop()
+						err := ap.Start()
+						apMu.Unlock()
+						restarts.Add(1)
+						if err != nil {
+							w.Violate("C13:restart-failed", "Start after Stop failed: "+err.Error(), cs)
+							return
+						}
+					}
+					time.Sleep(time.Duration(r.IntN(60)) * time.Millisecond)
 				case "sequential":
 					if r.IntN(6) == 0 {
 						time.Sleep(interval + time.Duration(r.IntN(400))*time.Millisecond) // idle across a whole interval
@@ -406,7 +422,7 @@ func c13Worker(w *W) {
 			if t, ok := seqFrom.Load().(time.Time); ok && mode == "stalledrotator" && rc.start.After(t.Add(50*time.Millisecond)) {
 				seqPhase = true // well after the stall: one writer, one write at a time
 			}
-			if mode == "sequential" || seqPhase {
+			if mode == "sequential" || mode == "seqrestart" || seqPhase {
 				// one write at a time: a write started in interval k must be in a file created in interval k or later
 				if f[0].nameTime.Before(rc.start.Truncate(interval).Truncate(time.Second)) {
 					bad = true
@@ -487,7 +503,10 @@ func c13Worker(w *W) {
 			w.Inconclusive(fmt.Sprintf("idleburst: only %d files, too few resumptions after a silent interval", files))
 		}
 	}
-	if files < boundaries && mode != "sequential" && mode != "idleburst" {
+	if mode == "seqrestart" {
+		w.Count("same_object_restarts_between_sequential_writes", restarts.Load())
+	}
+	if files < boundaries && mode != "sequential" && mode != "idleburst" && mode != "seqrestart" {
 		w.Inconclusive(fmt.Sprintf("only %d files for %d boundaries: too few rotations observed", files, boundaries))
 	}
 	if !bad {
@@ -499,7 +518,7 @@ func c13Worker(w *W) {
 func init() {
 	register(&Prop{
 		ID: "C13", Level: "exploration", MinDistinct: 5, Worker: c13Worker,
-		Rule: "RollingFileAppender built directly with 1 s / 2 s intervals, crossed by real boundaries (quick 3-4, thorough up to 10) in parallel child processes: continuous writers (4-16), bursts aligned just before each boundary (16 writers x 20 records), a sequential writer that also idles across whole intervals, 8 writers that are all silent for more than a whole interval and then resume at the same instant (3+ times), Stop/Start cycles several times per second, Start on a directory pre-seeded with same-named files for the current and following seconds, a mix with one-byte writes, a run in which one writer is stalled for more than two whole intervals inside Write, a run in which the rotating goroutine is overtaken by the next rotation and a single writer then continues alone, and a sequential run during which the local clock falls back by one hour (synthetic time zone); " +
+		Rule: "RollingFileAppender built directly with 1 s / 2 s intervals, crossed by real boundaries (quick 3-4, thorough up to 10) in parallel child processes: continuous writers (4-16), bursts aligned just before each boundary (16 writers x 20 records), a sequential writer that also idles across whole intervals, 8 writers that are all silent for more than a whole interval and then resume at the same instant (3+ times), a sequential writer whose appender object is stopped and started again between writes, retentions of 876000 / 5000000 / 2147483647 hours, Stop/Start cycles several times per second, Start on a directory pre-seeded with same-named files for the current and following seconds, a mix with one-byte writes, a run in which one writer is stalled for more than two whole intervals inside Write, a run in which the rotating goroutine is overtaken by the next rotation and a single writer then continues alone, and a sequential run during which the local clock falls back by one hour (synthetic time zone); " +
 			"records are self-describing frames of 12 B - 64 KiB with client-side snapshot (length+CRC) and wall-clock start/end stamps; a guarded yield point holds half of the writers that loaded the current file within 12 ms of a boundary until another writer has completed the rotation (at most 300 ms after the boundary), and adds 0-4 ms inside rotate() (all below one interval). " +
 			"Oracle over the final directory: every record whole, exactly once, in exactly one file named <name>.<14 digits>; no record in a file whose name-time is after the write completed; sequential mode: a write started in interval k is not in a file older than interval k; pre-existing content preserved; one-byte writes counted. Non-trivial/distinct = distinct (mode, writers, interval, build flavour, files created) runs that held.",
 		Assumptions: []string{"delays injected at yield points stay <= 300 ms, below one rotation interval, except in the stalled-writer run, where one writer is held for 2.3 intervals between loading the current file and writing (two rotations pass)", "wall clock is monotone during a run; file-name times are compared at one-second resolution"},
@@ -519,6 +538,13 @@ func init() {
 			add("bursts", 16, 1, "plain", nb)
 			add("sequential", 1, 1, "plain", nb+1)
 			add("idleburst", 8, 1, "plain", nb+4)
+			add("seqrestart", 1, 1, "plain", nb+1)
+			// "keep for ever" retentions: the scan that follows every rotation must not touch anything
+			for i, ma := range []string{"876000", "5000000", "2147483647"} {
+				add("continuous", 2, 1, "plain", nb)
+				specs[len(specs)-1].Name += "-maxage" + fmt.Sprint(i)
+				specs[len(specs)-1].Args["maxage"] = ma
+			}
 			add("stopstart", 2, 1, "plain", nb)
 			add("preseeded", 4, 1, "plain", nb)
 			add("onebyte", 4, 2, "plain", 2)
